@@ -1118,8 +1118,8 @@ def check_event_dispatch(prog, rep):
                                       'holds': inplace})
     for q in ('EventHandler.emit', 'EventHandler.emit_until_result'):
         f = m.func(q)
-        for lp in ast.walk(f):
-            if isinstance(lp, ast.For) and 'self.listeners' in unparse(lp.iter):
+        for lp in _iterations(f):      # for statements and comprehensions
+            if 'self.listeners' in unparse(lp.iter):
                 n += 1
                 ok = not inplace or unparse(lp.iter) != 'self.listeners'
                 rep.instance('EV-emit-snapshot', {'function': q, 'iterates': unparse(lp.iter),
@@ -1128,7 +1128,8 @@ def check_event_dispatch(prog, rep):
                     rep.violation('EV-emit-snapshot', m, q, 'iterates-live-list',
                                   '`for .. in self.listeners` iterates over the list that '
                                   'disconnect() deletes from: a listener disconnecting (itself) '
-                                  'during the emit makes the loop skip the next listener', lp.lineno)
+                                  'during the emit makes the loop skip the next listener',
+                                  lp.stmt.lineno)
     f = m.func('EventHandler.connect')
     ps = [p_ for p_ in params(f) if p_ not in ('self', 'callback')]
     for inner in ast.walk(f):
